@@ -31,6 +31,7 @@ OBLIGATIONS = [
     (P + "parse_cookies_roundtrip", "request::parse_cookies: every list of cookies (token names, token or empty values, ; or , and any blanks between) is delivered as the map the peer meant"),
     (P + "http_head_roundtrip", "HTTP request head through the per-line code: request line split, parse_single_header (canonical CGI names), process_request (method check, ? split, script-name match, percent-decoding of the path) = the head the peer meant"),
     (P + "http_roundtrip", "HTTP round trip: well-formed request, header lines folded any way, body, any segmentation -> exactly the peer's head and body stream reach the request layer"),
+    (P + "http_header_budget_per_request", "the 16 KiB header budget of the embedded server (total_read_) starts at 0 for every request of a kept-alive connection (assignments to total_read_ regenerated; the connection model carries the counter)"),
     (P + "keepalive_sequence_http", "HTTP keep-alive: well-formed requests back to back on one connection, any segmentation, are each delivered exactly, in order"),
     (P + "frontends_agree_http", "the embedded HTTP server and a gateway sending the derived CGI variables over SCGI / FastCGI (any framing, any segmentation) agree on the fate of the request"),
     (P + "view_roundtrip_get", "from the head to the application's view (shared by the three front-ends): query string and cookie header written by the peer-side encoders -> exactly those GET fields and cookies"),
@@ -79,6 +80,12 @@ def gen_cases(c, scale):
             x = Case("http", "hc", segs, tag="wf-peer")
             x.peer = q
             cases.append(x)
+    # FastCGI: a padded, (nearly) full-size STDIN record (content 65500..65535, padding 1..255): the sizes of the record
+    # reader must not wrap; the head of the record arrives in the same read as the records before it
+    for i in range(6 * scale):
+        r, q, ck, d, _ = fcgi_fullsize(rng)
+        for segs in segmentations(rng, d, 1) + [[d]]:
+            cases.append(Case("fastcgi", "hc", segs, absreq=(r, q, ck), tag="wf-fullsize-record"))
     for i in range(30 * scale):
         q = gen_gateway(rng)
         for api in ("scgi", "fastcgi"):
@@ -127,19 +134,56 @@ def gen_cases(c, scale):
             if len(d) <= 400:
                 for p in range(1, len(d)):
                     cases.append(Case(api, "hc", [d[:p], d[p:]], absreq=(r, q, ck), tag="wf-allsplits"))
-    # keep-alive runs (HTTP/1.1 keep-alive, FastCGI keep-conn): 2..4 requests on one connection, cut anywhere
+    # keep-alive runs (HTTP/1.1 keep-alive, FastCGI keep-conn): 2..4 *different* requests on one connection, cut anywhere;
+    # every request of the run is judged against what the peer meant (whole getenv() map included)
+    def keepalive_run(api, k, tag, nsegs, mk=None, cutter=None):
+        parts, reqs = [], []
+        for j in range(k):
+            r = mk(j) if mk else gen_absreq(rng)
+            r.keep = True; r.http11 = True
+            enc, q, ck = encode_all(r, rng)
+            parts.append(enc[api]); reqs.append((r, q, ck))
+        d = b"".join(parts)
+        for segs in (cutter(parts) if cutter else segmentations(rng, d, nsegs)):
+            x = Case(api, "hc", segs, tag=tag, nreq=k)
+            x.absreqs = reqs
+            cases.append(x)
     for i in range(12 * scale):
         k = rng.choice([2, 2, 3, 4])
         for api in ("http", "fastcgi"):
-            parts = []
-            for j in range(k):
-                r = gen_absreq(rng)
-                r.keep = True; r.http11 = True
-                enc, q, ck = encode_all(r, rng)
-                parts.append(enc[api])
-            d = b"".join(parts)
-            for segs in segmentations(rng, d, 2):
-                cases.append(Case(api, "hc", segs, tag=f"keepalive{k}", nreq=k))
+            keepalive_run(api, k, f"keepalive{k}", 2)
+    # long keep-alive runs: the header sections add up to far more than 16 KiB (the per-request budget of the embedded HTTP
+    # server) and every request is split across segments inside its header section
+    def split_inside(parts):
+        segs, carry = [], b""
+        for part in parts:
+            hdr_end = part.find(b"\r\n\r\n")
+            hi = hdr_end if hdr_end > 2 else max(2, len(part) // 2)
+            c = rng.randrange(1, hi)
+            segs.append(carry + part[:c]); carry = part[c:]
+        segs.append(carry)
+        return [segs]
+    def filled(j):
+        r = gen_absreq(rng)
+        r.headers = r.headers[:2] + [(b"X-Fill-%d" % t, rand_bytes(rng, rng.choice([300, 700, 1500]), TOKEN_CHARS)) for t in range(rng.choice([2, 3, 5]))]
+        if len(r.body) > 2000:
+            r.body = r.body[:2000] if r.post is None else b""
+            if r.post is not None:
+                r.post = []
+        return r
+    for i in range(2 * scale):
+        keepalive_run("http", rng.choice([9, 12, 16]), "keepalive-long-bigheaders", 1, mk=filled, cutter=split_inside)
+        keepalive_run("fastcgi", rng.choice([9, 12]), "keepalive-long-bigheaders", 1, mk=filled)
+    def small(j):
+        r = gen_absreq(rng)
+        r.headers = r.headers[:3]
+        r.body = r.body[:200] if r.post is None else b""
+        if r.post is not None:
+            r.post = []
+        return r
+    for i in range(1 * scale):
+        keepalive_run("http", rng.choice([40, 60]), "keepalive-long-many", 1, mk=small, cutter=split_inside)
+        keepalive_run("fastcgi", 40, "keepalive-long-many", 1, mk=small)
     return cases
 
 
@@ -207,6 +251,13 @@ def main():
                             res.append((x, "the embedded HTTP server did not answer the probe: no server parameters to judge with"))
                             continue
                         for l in judge_lines(x.peer, x.hp or hp, kv):
+                            jl.append(l); jx.append(x)
+                if x.absreqs is not None:
+                    ls = view_judge_lines_seq(x)
+                    if ls is None:
+                        res.append((x, f"keep-alive connection: {len(x.absreqs)} well-formed requests were sent, not every one was delivered to the application"))
+                    else:
+                        for l in ls:
                             jl.append(l); jx.append(x)
                 if x.absreq is not None:
                     l = view_judge_line(x)
